@@ -1,6 +1,7 @@
 """C08 — percent-encoding cannot change the matched rule; encoded slashes obey the rule."""
 import copy
 import json
+import urllib.parse
 
 import gen_repo
 import go2lean_c08
@@ -8,6 +9,12 @@ import repo_common as rc
 import vlib
 
 PID = "C08"
+
+# segments whose only escape is an encoded percent sign: such a path is its own default encoding (net/url keeps no raw
+# path for it), and decoding it twice shows (`%2561` -> `%61` -> `a`)
+PERCENT_VALUES = ["%2561dmin", "100%25", "a%252Fb", "v1%2541", "%25", "%2541"]
+# add_path_prefix values the property-level oracle reasons about (the others are left to the model)
+PLAIN_ADD = ("", "/x", "/v2/app", "/svc-1", "/~u", "x")
 
 
 def variants(rng, op, k):
@@ -41,12 +48,103 @@ def slash_variants(rng, op):
 
 
 def canonical_target(rng, exprs):
-    t = gen_repo.gen_target(rng, exprs, raw=True)
+    t = gen_repo.gen_target(rng, exprs, raw=True, extra=PERCENT_VALUES)
     return t
 
 
+def norm_unreserved(p):
+    """undo the escapes of unreserved octets (RFC 3986 6.2.2.2); every other escape stays as written"""
+    out, i = [], 0
+    while i < len(p):
+        if p[i] == "%" and i + 2 < len(p) + 0 and all(c in "0123456789abcdefABCDEF" for c in p[i + 1:i + 3]) and len(p[i + 1:i + 3]) == 2:
+            c = chr(int(p[i + 1:i + 3], 16))
+            if c in gen_repo.UNRESERVED:
+                out.append(c)
+            else:
+                out.append(p[i:i + 3])
+            i += 3
+        else:
+            out.append(p[i])
+            i += 1
+    return "".join(out)
+
+
+def rules_by_version(case):
+    res = {}
+    for o in case["ops"]:
+        for r in o.get("rules", []):
+            if r.get("ver"):
+                res[str(r["ver"])] = r
+    return res
+
+
+def spelling_view(res):
+    """what has to be the same for all spellings of one request: everything, except that of the path sent upstream the
+    normal form counts (escapes of unreserved octets undone; every other escape, the encoded slash included, as sent)"""
+    if not isinstance(res, dict):
+        return res
+    v = copy.deepcopy(res)
+    for r in (v, v.get("envoy") if isinstance(v.get("envoy"), dict) else {}):
+        if isinstance(r.get("up"), dict):
+            r["up"]["path"] = norm_unreserved(str(r["up"]["path"]))
+    return v
+
+
+def cut_status(op, rule):
+    strip = ((rule or {}).get("forward_to") or {}).get("rewrite", {}).get("strip", "")
+    return bool(strip) and op["target"].partition("?")[0].startswith(strip)
+
+
+def drop_up_path(v):
+    v = copy.deepcopy(v)
+    for r in (v, v.get("envoy") if isinstance(v.get("envoy"), dict) else {}):
+        if isinstance(r.get("up"), dict):
+            r["up"].pop("path", None)
+    return v
+
+
+def without_envoy(res):
+    return {k: x for k, x in res.items() if k != "envoy"}
+
+
+def slash_clause(op, res, rule):
+    """encoded slashes of the request in the path sent upstream; None = fine, otherwise what is wrong"""
+    if not isinstance(res, dict) or rule is None:
+        return None
+    raw = op["target"].partition("?")[0]
+    slashes = [raw[i:i + 3] for i in range(len(raw) - 2) if raw[i:i + 3] in ("%2F", "%2f")]
+    esh = rule.get("esh") or "off"
+    if esh == "off" and slashes:
+        if res.get("exec") != "argument" or "up" in res:
+            return "setting off: a request with an encoded slash was not answered with the precondition error"
+        return None
+    up = res.get("up")
+    if not isinstance(up, dict):
+        return None
+    rw = (rule.get("forward_to") or {}).get("rewrite") or {}
+    add, strip = rw.get("add", ""), rw.get("strip", "")
+    if add not in PLAIN_ADD or "%" in strip or raw.isascii() is False or any(ord(c) < 33 for c in raw):
+        return None
+    path = str(up["path"])
+    if not path.startswith(add):
+        return f"the path sent upstream does not start with add_path_prefix {add!r}"
+    sent = path[len(add):]
+    got = [sent[i:i + 3] for i in range(len(sent) - 2) if sent[i:i + 3] in ("%2F", "%2f")]
+    if esh == "no_decode" and got != slashes:
+        return (f"setting no_decode: the request has the encoded slashes {slashes}, the path sent upstream {path!r} "
+                f"has {got}")
+    if esh == "on" and got:
+        return f"setting on: the path sent upstream {path!r} still has an encoded slash"
+    # what is sent decodes to what was received (behind the prefix that was cut, if any)
+    dec_raw, dec_sent = urllib.parse.unquote_to_bytes(raw), urllib.parse.unquote_to_bytes(sent)
+    if (not strip and dec_sent != dec_raw) or (strip and not dec_raw.endswith(dec_sent)):
+        return (f"setting {esh}: the path sent upstream {path!r} does not decode to the decoded request path"
+                + (" (behind the stripped prefix)" if strip else ""))
+    return None
+
+
 def gen_case(rng):
-    base = gen_repo.gen_repo_case(rng, max_ops=6)
+    base = gen_repo.gen_repo_case(rng, max_ops=6, fwd=0.6)
     ops = [o for o in base["ops"] if o["op"] != "find"]
     if not ops:
         return base, []
@@ -73,32 +171,91 @@ def run(R):
     if exe is None:
         R.violation("harness does not build against /repo", {"build_log": R.harness_log[-3000:]}, no_input=True)
         return
-    corpus = vlib.load_corpus(PID)
+    corpus = [dict(c, envoy=True) for c in vlib.load_corpus(PID)]   # every corpus case through both request contexts
     n = 1200 if R.tier == "quick" else 90000
     gen = [gen_case(R.rng) for _ in range(n)]
     cases = corpus + [g[0] for g in gen]
-    groups = [[] for _ in corpus] + [g[1] for g in gen]
+    groups = [[tuple(g) for g in c.get("groups", [])] for c in corpus] + [g[1] for g in gen]
     impl, model, nbad = rc.check_correspondence(R, exe, cases, "percent-encoded request path")
-    # SPEC oracle on the implementation: all spellings of one logical request are served alike
+    # SPEC oracle on the implementation: all spellings of one logical request are served alike, the two request
+    # contexts agree, encoded slashes appear in the path sent upstream as the setting of the rule says
     ngroups = 0
     nontriv = set()
     viol = 0
     slash_seen = {"off_rejected": 0, "no_decode_kept": 0, "on_decoded": 0}
+    up_seen = {"forwarded_lookups": 0, "forwarded_groups_with_respelling": 0, "no_decode_slash_sent_encoded": 0,
+               "on_slash_sent_decoded": 0, "literal_prefix_cut_depends_on_spelling": 0, "envoy_lookups": 0,
+               "rewrite_shapes": {}}
+
+    said = set()
+
+    def report(what, c, keep_ops, kind):
+        nonlocal viol
+        if what in said:
+            return
+        said.add(what)
+        viol += 1
+        if viol <= 4:
+            keep = [o for o in c["ops"] if o["op"] != "find"] + keep_ops
+            R.violation(what, {"case": dict(c, ops=keep), "kind": kind}, no_input=False)
+
     for c, i, gs in zip(cases, impl, groups):
         if not isinstance(i, list):
             continue
+        byver = rules_by_version(c)
+        # every lookup on its own: the two request contexts, the encoded-slash clause for the path sent upstream
+        for op, r in zip(c["ops"], i):
+            if op["op"] != "find" or not isinstance(r, dict):
+                continue
+            rule = byver.get(str(r.get("ver"))) if r.get("ver") else None
+            if isinstance(r.get("envoy"), dict):
+                up_seen["envoy_lookups"] += 1
+                if not r.get("badrequest") and vlib.canon(r["envoy"]) != vlib.canon(without_envoy(r)):
+                    report("the request context of the Envoy ext_authz service and the one of the HTTP based services "
+                           f"disagree on rule / captured values / acceptance / upstream URL for {op['target']}: "
+                           f"http {json.dumps(without_envoy(r))[:220]} envoy {json.dumps(r['envoy'])[:220]}",
+                           c, [op], "impl-http-context-vs-envoy-context")
+            if isinstance(r.get("up"), dict):
+                up_seen["forwarded_lookups"] += 1
+                shape = "+".join(sorted(((rule or {}).get("forward_to") or {}).get("rewrite", {}).keys())) or "none"
+                up_seen["rewrite_shapes"][shape] = up_seen["rewrite_shapes"].get(shape, 0) + 1
+            for rr in (r, r.get("envoy")):
+                if not isinstance(rr, dict) or rr.get("badrequest") or rr.get("ver") != r.get("ver"):
+                    continue
+                bad = slash_clause(op, rr, rule)
+                if bad:
+                    report(f"{bad} (request {op['target']}, rule {rr.get('rule')})", c, [op], "impl-upstream-encoded-slash")
+                elif isinstance(rr.get("up"), dict) and "%2f" in op["target"].partition("?")[0].lower() and rr is r:
+                    esh = (rule or {}).get("esh")
+                    if esh == "no_decode" and "%2f" in str(rr["up"]["path"]).lower():
+                        up_seen["no_decode_slash_sent_encoded"] += 1
+                    elif esh == "on":
+                        up_seen["on_slash_sent_decoded"] += 1
         for (st, cnt) in gs:
             ngroups += 1
             ref = i[st]
             tg = c["ops"][st]["target"]
-            if any(vlib.canon(x) != vlib.canon(ref) for x in i[st:st + cnt]):
-                viol += 1
-                if viol <= 3:
-                    bad = next(k for k in range(st, st + cnt) if vlib.canon(i[k]) != vlib.canon(ref))
-                    keep = [o for o in c["ops"] if o["op"] != "find"] + [c["ops"][st], c["ops"][bad]]
-                    R.violation("re-encoding unreserved characters changed the outcome: "
-                                f"{tg} -> {json.dumps(ref)[:200]} but {c['ops'][bad]['target']} -> {json.dumps(i[bad])[:200]}",
-                                {"case": dict(c, ops=keep), "kind": "impl-spelling-vs-impl-respelling"}, no_input=False)
+            rule = byver.get(str(ref.get("ver"))) if isinstance(ref, dict) and ref.get("ver") else None
+            refv = spelling_view(ref)
+            fwd_group = isinstance(ref, dict) and isinstance(ref.get("up"), dict)
+            if fwd_group and "%" in "".join(c["ops"][k]["target"] for k in range(st + 1, st + cnt)):
+                up_seen["forwarded_groups_with_respelling"] += 1
+            for k in range(st, st + cnt):
+                x = spelling_view(i[k])
+                if vlib.canon(x) == vlib.canon(refv):
+                    continue
+                # strip_path_prefix is a literal cut on the received spelling: a prefix spelled with escapes is not
+                # cut. The property speaks about rule, captured values, acceptance and encoded slashes, not about
+                # the prefix; recorded as an observation (design/C08.md), the rest of the answer has to agree
+                if fwd_group and isinstance(x, dict) and (rule or {}).get("esh") != "on" and \
+                        cut_status(c["ops"][k], rule) != cut_status(c["ops"][st], rule) and \
+                        vlib.canon(drop_up_path(x)) == vlib.canon(drop_up_path(refv)):
+                    up_seen["literal_prefix_cut_depends_on_spelling"] += 1
+                    continue
+                report("re-encoding unreserved characters changed the outcome: "
+                       f"{tg} -> {json.dumps(ref)[:260]} but {c['ops'][k]['target']} -> {json.dumps(i[k])[:260]}",
+                       c, [c["ops"][st], c["ops"][k]], "impl-spelling-vs-impl-respelling")
+                break
             if isinstance(ref, dict) and ref.get("rule") and not str(ref["rule"]).startswith("config/") and "%" in "".join(
                     c["ops"][k]["target"] for k in range(st + 1, st + cnt)):
                 nontriv.add(vlib.case_hash({"ops": [o for o in c["ops"] if o["op"] != "find"], "t": tg}))
@@ -107,7 +264,7 @@ def run(R):
                     slash_seen["off_rejected"] += 1
                 elif any("%2f" in str(v[1]).lower() for v in ref.get("caps", [])):
                     slash_seen["no_decode_kept"] += 1
-                elif ref.get("exec") == "ok":
+                elif ref.get("exec") == "ok" and (rule or {}).get("esh") == "on":
                     slash_seen["on_decoded"] += 1
     st = rc.stats_sum(model)
     R.coverage.update({
@@ -115,17 +272,24 @@ def run(R):
         "rule": "rule sets mixing literal and wildcard expressions for the same paths (with/without path_params, all "
                 "three encoded-slash settings, with/without default rule); every request is sent in its given spelling "
                 "and in 3 re-encodings of random subsets of its unreserved octets (random hex case), plus %2F/%2f "
-                "insertions with 2 re-encodings each, through the real request context + repository + rule; compared "
-                "with the Lean model and spelling against spelling. Non-trivial = group whose reference is answered by "
+                "insertions with 2 re-encodings each, through BOTH real request contexts (HTTP based services, Envoy "
+                "ext_authz) + repository + rule; 60 % of the rules have a backend (forward_to: no rewrite / scheme / "
+                "strip_path_prefix / add_path_prefix / both / query parameters), for which the URL of "
+                "Backend.CreateURL / URLRewriter.Rewrite is observed; compared with the Lean model, spelling against "
+                "spelling, context against context, and with the encoded-slash clause for the path sent upstream. Non-trivial = group whose reference is answered by "
                 "a regular rule and that contains a percent-encoded spelling; distinct by (rule sets, target)",
-        "spelling_groups": ngroups, "encoded_slash_outcomes": slash_seen,
+        "spelling_groups": ngroups, "encoded_slash_outcomes": slash_seen, "upstream_url": up_seen,
+        "lookups_forwarded_model": st.get("forwarded", 0),
         "lookups_matched": st.get("matched", 0), "lookups_default_rule": st.get("default", 0),
         "corpus_cases": len(corpus), "samples": [cases[len(corpus)]] if len(cases) > len(corpus) else [cases[0]],
     })
     R.assumptions += [
         "net/url's parsing of the request line (url.ParseRequestURI, EscapedPath) is used as is by the harness and "
         "trusted; generated targets stay inside the characters net/url keeps verbatim in EscapedPath",
-        "the path sent upstream (Backend.CreateURL) is covered by C15, not here",
+        "of the URL sent upstream only the path (and that scheme, host and raw query do not depend on the spelling) "
+        "belongs to C08; the forwarding of headers, body and method is C15's",
+        "the CheckRequest handed to grpcv3.NewRequestContext carries the request target as received in `path` (the "
+        "documented contract of Envoy's ext_authz filter); what Envoy itself does to a path before is not modelled",
     ]
     if not lean_ok:
         R.violation("theorems of Props/C08.lean no longer check: " + "; ".join(R.lean["failed"])[:600],
